@@ -1,15 +1,39 @@
-"""C01 - a call only ever consumes the server's reply to its own request (work in progress)."""
-import z3
+"""C01 - a call only ever consumes the server's reply to its own request.
+
+Ghost reply stream (contracts/clientmodel.py): once a call's commands are handed to sendall, the unread stream of
+the connection is exactly the server's answer to *those* commands (causality: nothing unsolicited, nothing early):
+"" when they carry the noreply marker, otherwise one terminator-ended unit per command whose content is
+arbitrary (ordinary replies, error lines, garbage). Truncation, reset and timeout are outcomes of any read.
+Sync(client) == client.sock is None or (socket open and nothing of the answer is unread or buffered).
+
+  _misc_cmd, _store_cmd (real source, loop invariants "buf ++ unread == Rest(i), one result per unit so far"):
+      every normal exit: Sync, exactly one unit consumed per command (cut lemma: the reader returned the next unit, by
+      uniqueness of the first split), nothing read at all with noreply, the batch sent once in one piece;
+      every Exception exit: the socket was closed and dropped (so the next call reconnects - C06) unless the call failed
+      before any I/O, in which case the connection is untouched and still in sync.
+  delete / incr / decr / touch / flush_all: the command text carries the noreply marker iff the method does not wait
+      for a reply (same truthiness guards both), Sync at the exchange and at every exit.
+The induction over call sequences (Sync at every public exit => no call reads another call's reply) is the standard
+invariant argument and is stated, not mechanised.
+"""
 from . import clientmodel as cm
 
-TRUSTED = []
-ASSUMPTIONS = []
-BUDGET = {"quick": 30, "thorough": 120}
+TRUSTED = ["reader contracts of C03 (_readline/_readsegment/_readvalue) used at their call sites", "_connect/close contract of C06",
+           "causality of the reply stream (no unsolicited bytes; one unit per command that asked for a reply)",
+           "meta-lemma C01.compose: Sync at every public exit => every byte a call parses answers its own commands"]
+ASSUMPTIONS = ["the server answers a command that does not carry the noreply marker with exactly one terminator-ended unit",
+               "faults are Exception-class (asynchronous interruptions are C10)"]
+NOT_COVERED = ["_fetch_cmd / _extract_value and the get family, stats, cache_memlimit (exchange function not yet mechanised)",
+               "set/add/replace/append/prepend/cas/set_many/delete_many/version/quit/shutdown wrappers around the verified exchange functions",
+               "raw_command with a caller-chosen end token (unit boundary is whatever the caller says)",
+               "PooledClient / HashClient wrappers: C09 shows a failed pooled client is destroyed and closed; HashClient pending",
+               "'never blocks' beyond 'performs no read': termination is not decided by this family"]
+BUDGET = {"quick": 30, "thorough": 180}
 FILTER_BY_PROPERTY = True
 
 
 def build(E, tier):
-    import os
-    if os.environ.get("ONLY") != "store":
-        cm.verify_misc_cmd(E, "C01", "exception")
-    cm.verify_store_cmd(E, "C01", "exception", verbs=("set",) if os.environ.get("ONLY") else ("set", "cas"))
+    cm.verify_misc_cmd(E, "C01", "exception")
+    cm.verify_store_cmd(E, "C01", "exception", flag_kinds=("none", "int"))
+    cm.verify_public_misc(E)
+    cm.verify_delete_many(E)
